@@ -16,7 +16,11 @@ def one(args):
     except Exception as exc:
         return prop, [f"CRASH {type(exc).__name__}: {exc}"]
     out = []
+    from sa.report import split_known
+    known = {id(o) for o, _k in split_known(prop, sink.obs)[0]}
     for o in sink.obs:
+        if id(o) in known:
+            continue
         if o.verdict == VIOLATED:
             out.append(f"VIOLATED {o.rule} [{o.key}] {o.msg[:220]}")
         elif o.verdict == UNRECOGNISED:
